@@ -25,6 +25,10 @@ Proof. exact Nor2_correct. Qed.
 Theorem C08_xor2 : forall wa wb wr a b, 0 <= wr <= wa -> 0 <= wb -> fits wa a -> fits wb b ->
   Xor2_m wa wb wr a b = xor2_spec wr a b.
 Proof. exact Xor2_correct. Qed.
+(* what the 4-NAND structure computes for ANY widths: result bits at and above a's width are ones *)
+Theorem C08_xor2_general : forall wa wb wr a b, 0 <= wa -> 0 <= wb -> 0 <= wr -> fits wa a -> fits wb b ->
+  Xor2_m wa wb wr a b = trunc wr (Z.lnot (trunc wa (Z.lnot (Z.lxor a b)))).
+Proof. exact Xor2_general. Qed.
 Theorem C08_xor2_wide_refuted : exists wa wb wr a b, fits wa a /\ fits wb b /\ Xor2_m wa wb wr a b <> xor2_spec wr a b.
 Proof. exact Xor2_wide_refuted. Qed.
 
@@ -166,7 +170,7 @@ Proof. vm_compute. repeat split; try reflexivity; discriminate. Qed.
    would be listed here. *)
 Definition C08_all_theorems :=
   (C08_buf, C08_not, C08_constant, C08_and2, C08_or2,
-   C08_nand2, C08_nor2, C08_xor2, C08_xor2_wide_refuted, C08_and,
+   C08_nand2, C08_nor2, C08_xor2, C08_xor2_general, C08_xor2_wide_refuted, C08_and,
    C08_or, C08_xor, C08_nor, C08_andbits, C08_orbits,
    C08_bit, C08_range, C08_bits_lsbf, C08_bits_msbf, C08_repeat,
    C08_bufenable, C08_concatenate_msbf, C08_concatenate_lsbf, C08_concatenate_msbf_exact, C08_concatenate_lsbf_exact,
